@@ -2,7 +2,7 @@
   Lungo.Proofs.ConcProgress — progress: invariants about Close / the expiry actor and the
   no-deadlock argument.  (Per-sub-machine lemmas generated mechanically.)
 -/
-import Lungo.Proofs.ConcUnshared
+import Lungo.Proofs.ConcInvDefs
 namespace Lungo.Conc
 
 /-- control states of the expiry goroutine (actor 0): it never becomes an idle client -/
